@@ -89,6 +89,15 @@ def e2e(what: str):
     return run
 
 
+def worker_model():
+    def run(tier: str, seed: int, prop: str) -> CompResult:
+        import t3_runs
+
+        return t3_runs.worker_model(tier, seed)
+
+    return run
+
+
 def receiver():
     def run(tier: str, seed: int, prop: str) -> CompResult:
         import t1_receiver
@@ -178,7 +187,7 @@ PROPS: dict[str, dict[str, Any]] = {
     },
     "C16": {
         "components": [sched(["load", "worksteal", "loadscope", "loadfile", "loadgroup", "each"], crash=0.08),
-                       system(["plain", "crash", "stop", "each", "budget", "earlystop"], 480, 9000)],
+                       system(["plain", "crash", "stop", "each", "budget", "earlystop"], 480, 9000), receiver()],
         "assumptions": ["theorems cover load and worksteal; the loadscope family and each are covered by the correspondence + wire monitors only",
                         "load: the first schedule() does not check shutting_down (stated as hypothesis, witness proved)"],
     },
@@ -188,8 +197,8 @@ PROPS: dict[str, dict[str, Any]] = {
                         "the theorems are about the DSession model for an arbitrary scheduler; T2 replays every simulated run's controller events through that model"],
     },
     "C11": {
-        "components": [system(["stop", "collecterr", "stop", "earlystop"], 480, 9000)],
-        "assumptions": ["pytest's own per-worker --maxfail counting and the mapping of Interrupted to exit status 2 (wrap_session) are pytest's; the simulated workers follow them",
+        "components": [system(["stop", "collecterr", "stop", "earlystop"], 480, 9000), worker_model()],
+        "assumptions": ["pytest's own per-worker --maxfail counting and the mapping of Interrupted to exit status 2 (wrap_session) are pytest's; the simulated workers follow them, and four real runs per check compare the modelled worker with real workers (e2e.worker-model)",
                         "a receiver thread flipping _down in the middle of a handler of the main loop is not exhibited by the simulation"],
     },
     "C12": {
@@ -217,7 +226,7 @@ PROPS: dict[str, dict[str, Any]] = {
                         "the Lean theorems cover the receiver and worker_errordown for any scheduler; absence of stand-offs and the exactly-once accounting after lifecycle crashes are examined by the simulation monitors (not yet a theorem)"],
     },
     "C04": {
-        "components": [system(["plain", "collecterr", "crash"], 300, 6000), receiver(), e2e("reports")],
+        "components": [system(["plain", "collecterr", "crash"], 300, 6000), receiver(), e2e("reports"), worker_model()],
         "assumptions": ["pytest's report (de)serialisation is exercised on real reports (T2 with constructed TestReport objects, T3 with real test outcomes), not modelled",
                         "with --dist loadgroup the reported id carries the documented '@group' suffix; ids are compared modulo that suffix"],
     },
